@@ -8,19 +8,18 @@ from engine.loader import AnalysisError
 from . import wrapper as W
 
 META = {
-    'text': 'Static must-be-guarded rules on the one choke point for user code: every call of a user-supplied printer '
-            '(the wrapped callable, including the retry without the trailing comment, and predicate-registered '
-            'printers reached through the base printer) is shown, by structured dataflow over try/except, unable to '
-            'let an Exception escape the invoking function unhandled (or its enclosing function is only ever run under '
-            'such a guard); every handler that swallows a failure sets the document to repr(value) and calls the '
-            'warning helper with the printer and the exception; the helper warns with UserWarning and names '
-            'module.qualname of the printer; the return-type check raises ValueError exactly when the result is '
-            'neither str nor Doc and dominates the return; the visit window stays balanced (shared with C13.a). '
-            'This property is almost entirely structural; BaseExceptions are outside the statement.',
-    'note': 'the exception hierarchy of builtins is tabled in the checker; a call of a tainted callable is assumed '
-            'able to raise any Exception',
-    'technique': 'static analysis: taint of registered-printer callables through parameters, structured dataflow '
-                 'with exceptional edges, guard facts on handlers',
+    'text': 'The wrapper pipeline interpreted (no execution) with failing printers - raising, RecursionError / MemoryError,'
+            ' TypeError inside a printer that accepts the trailing comment, non-document and None return values; nested, re'
+            'peated, below a cycle, with trailing comments: the failing value is replaced by repr(value) exactly there, sib'
+            "lings and enclosing values are unaffected, one warning per failure naming the printer's module and qualified n"
+            'ame, a non-document return value is an error attributed to the printer and contained by the enclosing printer '
+            'call (a,b); typestate: every path of the wrapper ends the visit, handlers catch Exception only, the fallback c'
+            'annot itself fail (may-raise inventory of the handlers); (e) nothing is remembered about a failure between cal'
+            'ls (cone-write inventory).',
+    'note': 'the exception hierarchy of builtins is tabled in the checker; a call of a tainted callable is assumed able to '
+            'raise any Exception',
+    'technique': 'static analysis: abstract interpretation of the wrapper pipeline with failing printer behaviours; typestate ov'
+                 'er exception paths; effect inventory',
 }
 
 
